@@ -103,7 +103,11 @@ fn arm_family(archname: &str, osname: &str, path: &str, tracepath: &str) {
     let is64 = archname != "arm";
     let p = spec.word as i64;
     let (fpname, lrname, csname) = if is64 { ("x29", "x30", "x19") } else { ("r11", "lr", "r4") };
-    let val = |v: i64| -> u64 { if is64 && v >= SIG { ((v - SIG) as u64) | (0xABCDu64 << 48) } else { v as u64 } };
+    // arm64: the module without symbols (M2) lives above 2^47 and comes first in the module list, so that the pointer-authentication
+    // mask has to be derived from the highest module, not from the last one listed; tagged values carry 0xABCD in the top 16 bits
+    const HI: u64 = 1 << 47;
+    let relocate = |a: u64| -> u64 { if is64 && (5242880..5246976 + 256).contains(&a) { a + HI } else { a } };
+    let val = |v: i64| -> u64 { if is64 && v >= SIG { relocate((v - SIG) as u64) | (0xABCDu64 << 48) } else { relocate(v as u64) } };
     let os = if osname == "ios" { Os::Ios } else { Os::Linux };
     let cfi = |rule: &str| -> String {
         match rule {
@@ -128,8 +132,9 @@ fn arm_family(archname: &str, osname: &str, path: &str, tracepath: &str) {
                                                  cfi(c["rule"].as_str().unwrap()), cfi("cfaonly")));
         let built = !c["expect"].as_array().unwrap().is_empty();
         let track: Vec<&'static str> = vec!["fp", "lr", if is64 { "x19" } else { "r4" }];
+        let modules = if is64 { vec![("m2".into(), 0x500000 + HI, 0x1000), ("m1".into(), 0x400000, 0x1000)] } else { vec![("m1".into(), 0x400000, 0x1000), ("m2".into(), 0x500000, 0x1000)] };
         let inp = WalkInput { arch: spec.arch, os, regs, valid: Some(valid), stack_base: 0x10000, stack_bytes: words_to_bytes(&words, spec.word),
-                              modules: vec![("m1".into(), 0x400000, 0x1000), ("m2".into(), 0x500000, 0x1000)], symbols, track, frame_cap: words.len() * spec.word + 3 };
+                              modules, symbols, track, frame_cap: words.len() * spec.word + 3 };
         let obs = guarded(|| run_walk(&inp));
         rep.evaluations += 1;
         let model = c["frames"].as_array().unwrap();
@@ -189,6 +194,9 @@ fn x86(path: &str, tracepath: &str) {
             "fpo" => "STACK WIN 0 100 100 0 0 c 0 4 0 0 0",
             "fpo_bp" => "STACK WIN 0 100 100 0 0 c 8 0 0 0 1",
             "cfi" => "STACK CFI INIT 100 100 .cfa: $esp 8 + .ra: .cfa 4 - ^ $ebp: .cfa 8 - ^",
+            "std_fpo" => "STACK WIN 4 100 100 0 0 c 0 0 0 1 $T0 $ebp = $eip $T0 4 + ^ = $ebp $T0 ^ = $esp $T0 8 + =\nSTACK WIN 0 100 100 0 0 c 0 4 0 0 0",
+            "std_cfi" => "STACK WIN 4 100 100 0 0 c 0 0 0 1 $T0 $ebp = $eip $T0 4 + ^ = $ebp $T0 ^ = $esp $T0 8 + =\nSTACK CFI INIT 100 100 .cfa: $esp 8 + .ra: .cfa 4 - ^ $ebp: .cfa 8 - ^",
+            "cfi_big" => "STACK CFI INIT 100 100 .cfa: $esp 8 + .ra: .cfa 4 - ^ $ebx: 4294967296 $eax: 4294967296",
             _ => panic!("rule"),
         }
     };
@@ -199,13 +207,13 @@ fn x86(path: &str, tracepath: &str) {
         let f0 = &c["frames"][0];
         let ctx_ip = f0["ip"].as_u64().unwrap();
         let regs = vec![("eip".to_string(), ctx_ip), ("esp".to_string(), f0["sp"].as_u64().unwrap()), ("ebp".to_string(), f0["bp"].as_u64().unwrap()),
-                        ("ebx".to_string(), f0["bx"].as_u64().unwrap()), ("esi".to_string(), 0x5151), ("edi".to_string(), 0xd1d1)];
+                        ("ebx".to_string(), f0["bx"].as_u64().unwrap()), ("esi".to_string(), 0x5151), ("edi".to_string(), 0xd1d1), ("eax".to_string(), 0xaaaa_aaaa)];
         let valid: Vec<String> = f0["valid"].as_array().unwrap().iter().map(|v| v.as_str().unwrap().to_string()).collect();
         let mut symbols = HashMap::new();
         symbols.insert("m1".to_string(), format!("MODULE windows x86 000 m1\nFUNC 100 100 0 f1\nFUNC 300 100 8 f2\n{}\n", unwind(c["rule"].as_str().unwrap())));
         let built = !c["expect"].as_array().unwrap().is_empty();
         let inp = WalkInput { arch: spec.arch, os: Os::Windows, regs, valid: Some(valid), stack_base: 0x10000, stack_bytes: words_to_bytes(&words, spec.word),
-                              modules: vec![("m1".into(), 0x400000, 0x1000), ("m2".into(), 0x500000, 0x1000)], symbols, track: spec.track.clone(), frame_cap: words.len() * spec.word + 3 };
+                              modules: vec![("m1".into(), 0x400000, 0x1000), ("m2".into(), 0x500000, 0x1000)], symbols, track: vec!["ebp", "ebx", "esi", "edi", "eax"], frame_cap: words.len() * spec.word + 3 };
         let obs = guarded(|| run_walk(&inp));
         rep.evaluations += 1;
         let model = c["frames"].as_array().unwrap();
@@ -227,6 +235,7 @@ fn x86(path: &str, tracepath: &str) {
                     else if r.regs["ebx"].is_some() != mvalid.contains(&"ebx") { diff = Some("ebx-validity".into()); }
                     else if r.regs["ebx"].is_some() && r.regs["ebx"] != m["bx"].as_u64() { diff = Some("ebx-value".into()); }
                     else if r.regs["esi"].is_some() != mvalid.contains(&"esi") || r.regs["edi"].is_some() != mvalid.contains(&"edi") { diff = Some("esi-edi-validity".into()); }
+                    else if r.regs["eax"].is_some() != mvalid.contains(&"eax") { diff = Some("eax-validity".into()); }
                     else if r.psize.map(|x| x as i64).unwrap_or(-1) != mps { diff = Some("parameter-size".into()); }
                     rep.class(&format!("frame:{}", r.trust));
                 }
